@@ -34,7 +34,7 @@ using namespace votca;
 using namespace votca::xtp;
 namespace po = boost::program_options;
 
-enum { EV_EXEC = 1, EV_REPORT, EV_SYNC_BEGIN, EV_SYNC_END, EV_IO, EV_CRASH, EV_INV_FAIL, EV_PROC_DONE, EV_EXC, EV_COMMIT, EV_INSTANTS, EV_ABS };
+enum { EV_EXEC = 1, EV_REPORT, EV_SYNC_BEGIN, EV_SYNC_END, EV_IO, EV_CRASH, EV_INV_FAIL, EV_PROC_DONE, EV_EXC, EV_COMMIT, EV_INSTANTS, EV_ABS, EV_DUR_FAIL };
 enum { K_NONE = 0, K_FILE = 1, K_BACKUP = 2, K_LOCK = 3 };
 // abstract protocol steps (models/JobFile.tla): logged as EV_ABS(pid, step)
 enum { A_LOCK = 1, A_LOAD, A_TRUNCB, A_WRITEB, A_TRUNCF, A_WRITEF, A_UNLOCK, A_EXEC, A_REPORT };
@@ -80,7 +80,13 @@ int classify(const char *path) {
 bool controlled() { return on && vs_active() && vs_tid() >= 0; }
 
 // Is `content` a complete job list (parsed by the real LOAD_JOBS, all ids 1..n once)?
-bool complete(const std::string &content) {
+// results (job id -> output) of the COMPLETE jobs of a parsed copy
+typedef std::map<long, std::string> Results;
+Results results_cache[3];
+Results committed_results;
+std::string committed_parsed_for;
+bool complete(const std::string &content, Results *res = nullptr) {
+  if (res) res->clear();
   if (content.empty()) return false;
   int fd = (int)syscall(SYS_openat, AT_FDCWD, "view.xml", O_WRONLY | O_CREAT | O_TRUNC, 0644);
   if (fd < 0) return false;
@@ -98,16 +104,29 @@ bool complete(const std::string &content) {
     std::vector<Job> jobs = LOAD_JOBS("view.xml");
     ok = (int)jobs.size() == njobs_expected;
     for (int i = 0; ok && i < (int)jobs.size(); i++) ok = jobs[i].getId() == i + 1;
+    if (ok && res)
+      for (auto &j : jobs)
+        if (j.isComplete()) (*res)[j.getId()] = j.hasOutput() ? j.getOutput().as<std::string>() : std::string();
   } catch (...) { ok = false; }
   on = was;
   return ok;
 }
-// invariant at one instant: job file or backup complete
+// invariants at one crash instant: (1) job file or backup is a complete list; (2) every result that was in the job
+// file after its last completed rewrite is in the copy that survives (the job file if complete, else the backup)
 void check_instant(const char *what) {
   instants++;
   for (int k = 1; k <= 2; k++)
-    if (complete_cache[k] < 0) complete_cache[k] = complete(mirror[k]) ? 1 : 0;
-  if (!complete_cache[K_FILE] && !complete_cache[K_BACKUP]) vs_log(EV_INV_FAIL, ioevents, (int64_t)mirror[K_FILE].size());
+    if (complete_cache[k] < 0) complete_cache[k] = complete(mirror[k], &results_cache[k]) ? 1 : 0;
+  if (!complete_cache[K_FILE] && !complete_cache[K_BACKUP]) { vs_log(EV_INV_FAIL, ioevents, (int64_t)mirror[K_FILE].size()); return; }
+  if (committed_parsed_for != committed) {
+    committed_parsed_for = committed;
+    if (!complete(committed, &committed_results)) committed_results.clear();
+  }
+  const Results &good = complete_cache[K_FILE] ? results_cache[K_FILE] : results_cache[K_BACKUP];
+  for (auto &kv : committed_results) {
+    auto it = good.find(kv.first);
+    if (it == good.end() || it->second != kv.second) { vs_log(EV_DUR_FAIL, ioevents, kv.first); break; }
+  }
   (void)what;
 }
 // the job file as of its last completed rewrite: what a crash must not lose
@@ -584,16 +603,19 @@ static Verdict judge(const Cfg &c, const vsx::Exec &x) {
   if (x.crashed || x.verdict != VS_COMPLETED) { bad(tag + "-crash", "child status " + std::to_string(x.status) + " verdict " + std::to_string(x.verdict) + " " + x.message); return v; }
   std::map<long, std::vector<long>> execs;  // job -> executors (pid*100+thread)
   std::ostringstream obs;
-  int procs_done = 0, exc = 0, invfail = 0;
-  long invfail_ev = -1;
+  int procs_done = 0, exc = 0, invfail = 0, durfail = 0;
+  long invfail_ev = -1, durfail_ev = -1, durfail_job = -1;
   for (int i = 0; i < shm->nevents; i++) {
     const vs_event &e = shm->events[i];
     if (e.kind == EV_EXEC) { execs[e.b].push_back(e.a); obs << "X" << e.a << ":" << e.b << " "; }
     if (e.kind == EV_PROC_DONE) procs_done++;
     if (e.kind == EV_EXC) exc++;
     if (e.kind == EV_INV_FAIL) { invfail++; if (invfail_ev < 0) invfail_ev = e.a; }
+    if (e.kind == EV_DUR_FAIL) { durfail++; if (durfail_ev < 0) { durfail_ev = e.a; durfail_job = e.b; } }
   }
   if (invfail) bad(tag + "-no-complete-copy", "at I/O event " + std::to_string(invfail_ev) + " neither the job file nor its backup was a complete job list (" + std::to_string(invfail) + " instants)");
+  if (durfail) bad(tag + "-crash-instant-loses-committed-result", "at I/O event " + std::to_string(durfail_ev) + " a crash would lose the result of job " + std::to_string(durfail_job) +
+                   ", which was in the job file after its last completed rewrite but is not in the copy that would survive (" + std::to_string(durfail) + " instants)");
   if (exc) bad(tag + "-exception", "a worker or process died with an exception (e.g. job file unparseable / out of sync when loaded)");
   if (procs_done != c.K) bad(tag + "-process-did-not-finish", std::to_string(procs_done) + " of " + std::to_string(c.K) + " processes finished");
   for (auto &kv : execs)
